@@ -511,7 +511,20 @@ where
                 // depends on another candidate being fused or rejected)
                 let (a, b2, c, d, e, f) = (pick(rng, &ids), pick(rng, &ids), pick(rng, &ids), pick(rng, &ids), pick(rng, &ids), pick(rng, &ids));
                 // markers: u32::MAX - k refers to the k-th most recent id of this group
-                match rng.below(4) {
+                match rng.below(5) {
+                    4 => {
+                        // a product with one forward-add use whose slot is ALSO read as the `out` of a
+                        // backward check row: d = m - y with d tied to a public input. If the fusion
+                        // pass drops m = a*b here, nothing constrains m any more.
+                        if let (Some(va), Some(vb), Some(vy)) = (sem.v(a), sem.v(b2), sem.v(c)) {
+                            extra_pub = Some(va * vb - vy);
+                            pending.push(Call::Mul(a, b2));
+                            pending.push(Call::Add(u32::MAX, d));
+                            pending.push(Call::Sub(u32::MAX - 1, c));
+                            pending.push(Call::Pub);
+                            pending.push(Call::Conn(u32::MAX - 1, u32::MAX));
+                        }
+                    }
                     0 => {
                         pending.push(Call::Mul(a, b2));
                         pending.push(Call::Add(u32::MAX, c));
